@@ -169,8 +169,16 @@ def handleHist (a : Args) : String :=
   let cls := if o.crash then "crash" else if o.err then "err" else "nil"
   let model := s!"{cls}@{showPos o.pos.file o.pos.offset}#" ++ String.intercalate "&" (o.calls.map showModelTx)
   let spec := String.intercalate "&" (exp.map (showSpecTx txt))
+  -- per packet: what the parser does with it (c = continue, d = deliver, x = stop with an error), handler accepting
+  let rec verdicts (st : PState) : List Bytes → List Char
+    | [] => []
+    | b :: bs => match stepEvent env st b with
+      | .cont st' => 'c' :: verdicts st' bs
+      | .deliver _ acc => 'd' :: verdicts acc bs
+      | .stop _ _ => ['x']
+  let vd := String.ofList (verdicts st packets)
   let bnd := String.intercalate "," ((W.boundaries cfg h).map fun b => showPos b.file b.offset)
   let ep := W.endPos cfg h p
-  s!"packets={String.intercalate "," (packets.map toHex)} model={model} spec={spec} endpos={showPos ep.file ep.offset} boundaries={bnd}"
+  s!"packets={String.intercalate "," (packets.map toHex)} model={model} spec={spec} endpos={showPos ep.file ep.offset} boundaries={bnd} vd={vd}"
 
 end GV.D
